@@ -163,3 +163,15 @@ Record gcase := GCase {
 }.
 Definition verdict_g (c : gcase) : nat :=
   if option_eqb (list_eqb pentry_eqb) (reparse (gc_tokens c)) (gc_python c) then 0 else 1.
+
+(* ---- third stream: histories.  One process stubs a module through the store path, the module's source is rewritten
+   and reloaded, and it is stubbed again: hc_case is the SECOND stub (ground truth = the functions as they are now),
+   hc_fresh what a fresh process that never saw the first version shows for the same traces. ---- *)
+Record hcase := HCase {
+  hc_case : mcase;
+  hc_fresh : option (list item)
+}.
+Definition verdict_h (c : hcase) : nat :=
+  let v := verdict (hc_case c) in
+  if negb (Nat.eqb v 0) then v
+  else if option_eqb (list_eqb item_eqb) (mc_parse (hc_case c)) (hc_fresh c) then 0 else 2.
